@@ -192,7 +192,7 @@ func c16Eval(text string, cfg map[string]any, stack []string) (string, *c16RefEr
 
 func c16Gen(c *core.Ctx) func(yield func(c16Case) bool) {
 	return func(yield func(c16Case) bool) {
-		segs := []string{"p", "${a}", "${b}", "${x}", "${x:d}", "${a:d}", "${m:d}", "${l:d}", "${${k}}", "${x:${a}}", "${x:${x:e}}"}
+		segs := []string{"p", "${a}", "${b}", "${x}", "${x:d}", "${a:d}", "${m:d}", "${l:d}", "${${k}}", "${x:${a}}", "${x:${x:e}}", "{q}"}
 		var tags []string
 		tagSegs := map[string][]string{}
 		add := func(ss ...string) {
